@@ -490,7 +490,7 @@ def gen_targets(stmt):
     return t
 
 
-def gen_fault(rng, stmt, n_evals):
+def gen_fault(rng, stmt, n_evals, point_keyed_only=False):
     targets = gen_targets(stmt)
     if not targets:
         return None
@@ -501,6 +501,10 @@ def gen_fault(rng, stmt, n_evals):
         target = "obj"
     N = max(1, n_evals)
     wk = rng.wpick([(5, "at"), (1.5, "from"), (1.5, "half"), (1, "ball")])
+    if point_keyed_only:
+        # replies must stay pure functions of the user-space point (paired worlds: scipy's one-entry cache
+        # lets different numbers of calls through in the two statements)
+        wk = rng.wpick([(3, "half"), (2, "ball")])
     if wk == "at":
         k = rng.wpick([(2, 1), (1, min(N, 2)), (6, rng.randint(1, N))])
         when = {"at": k}
@@ -519,7 +523,7 @@ def gen_fault(rng, stmt, n_evals):
     return f
 
 
-def gen_fault_plan(rng, stmt, n_evals, linalg_calls=0, level=None, allow_linalg=True):
+def gen_fault_plan(rng, stmt, n_evals, linalg_calls=0, level=None, allow_linalg=True, point_keyed_only=False):
     """0 faults (25 %), 1 (35 %), 2-3 (30 %), heavy (10 %)."""
     if level is None:
         level = rng.wpick([(25, 0), (35, 1), (30, 2), (10, 3)])
@@ -536,7 +540,7 @@ def gen_fault_plan(rng, stmt, n_evals, linalg_calls=0, level=None, allow_linalg=
         if allow_linalg and linalg_calls > 0 and rng.chance(0.15):
             plan.append({"kind": "linalg", "fn": "eigh", "at": rng.randint(1, linalg_calls)})
             continue
-        f = gen_fault(rng, stmt, n_evals)
+        f = gen_fault(rng, stmt, n_evals, point_keyed_only=point_keyed_only)
         if f is not None:
             plan.append(f)
     if rng.chance(0.08):
